@@ -31,7 +31,7 @@ TD  TLC enumerates every set of present keys x drop|take x n at small scope from
     TDRemoved (checked against the law TDLaw by TLC); the harness runs the real drop_or_take for
     HashMap and BTreeMap backings and several key types with keys concretised from ordered pools.
 """
-import itertools, json, os, random, threading
+import itertools, json, os, random, threading, time
 from vlib import core
 from vlib import replay as rp
 
@@ -589,6 +589,7 @@ def new_stats():
 def run_k(tier, out, wd=None):
     wd = wd or core.workdir("KMAPQ")
     os.makedirs(wd, exist_ok=True)
+    t_start = time.time()
     rng = random.Random(core.seed())
     core.build_harness(MEMBER, COMPONENT)
     prints = calibrate(wd, out)
@@ -601,6 +602,7 @@ def run_k(tier, out, wd=None):
     for bi, k in enumerate(pl["b3"]):
         jobs.submit(("b", bi), 2, lambda k=k, bi=bi: tlc_b3(k, os.path.join(wd, "b%d" % bi), 2))
     res = jobs.wait()
+    core.log("[K-C02] TLC jobs done after %.1fs" % (time.time() - t_start))
 
     tot = dict(states=0, transitions=0, traces_validated_against_impl=0)
     cov = {}
@@ -725,6 +727,8 @@ def run_k(tier, out, wd=None):
         "their correctness is C15's subject"]
     if unvisited:
         out.notes.append("K: MapQueue actions never taken in any TLC run: %s" % unvisited)
+    core.log("[K-C02] done after %.1fs; P validated %d traces / %d events in %d TLC runs" % (
+        time.time() - t_start, stats["p_traces"], stats["p_events"], stats["p_runs"]))
     stats.update(td=td, states=tot["states"], transitions=tot["transitions"], never_taken=unvisited)
     return stats
 
